@@ -444,6 +444,7 @@ fn heavy_history(ctx: &Ctx, rep: &mut Report) {
                     let _ = vt.feed_str(&heavy[a].1);
                     let _ = vt.feed_str("\x1bc");
                     let tail = format!("{}\x1b\\\r\nZ\x1b[2;2Hw", heavy[b].1);
+                    let _ = &tail;
                     let _ = vt.feed_str(&tail);
                     let mut f = build_vt(6, 3, Some(10));
                     let _ = f.feed_str(&tail);
@@ -462,10 +463,11 @@ fn heavy_history(ctx: &Ctx, rep: &mut Report) {
                     let mut one = String::from("filler ");
                     one.push_str(&short);
                     one.push_str("\x1b\\\x1bc");
-                    one.push_str("\x1b[2;2Hw\r\nZ");
+                    // (plain text first: an ESC would end whatever string the parser still is in)
+                    one.push_str("ab\r\nZ\x1b[2;2Hw");
                     let _ = v2.feed_str(&one);
                     let mut f2 = build_vt(6, 3, Some(10));
-                    let _ = f2.feed_str("\x1b[2;2Hw\r\nZ");
+                    let _ = f2.feed_str("ab\r\nZ\x1b[2;2Hw");
                     if obs_full(&v2) != obs_full(&f2) || v2.dump() != f2.dump() {
                         return Some(format!("with ESC c inside one call of {} characters: lines() {:?} cursor {:?}; fresh: {:?} cursor {:?}", one.chars().count(), obs_full(&v2).rows, obs_full(&v2).cursor, obs_full(&f2).rows, obs_full(&f2).cursor));
                     }
